@@ -241,8 +241,8 @@ fn run_flags(p: &Prog, stream: &str, exhaustive: bool, rng: &mut Rng, seen: &mut
 }
 
 pub fn run(tier: &str, rng: &mut Rng, out: &mut Out) {
-    let (n_ring, n_mix, n_thm, n_gen, n_rej) = match tier { "thorough" => (80, 90, 120, 300, 12), "search" => (10, 18, 10, 20, 6), _ => (14, 18, 16, 40, 6) };
-    let n_mul = match tier { "thorough" => 150, "search" => 10, _ => 20 };
+    let (n_ring, n_mix, n_thm, n_gen, n_rej) = match tier { "thorough" => (80, 90, 120, 300, 12), "search" => (10, 18, 10, 20, 6), _ => (10, 12, 12, 30, 6) };
+    let n_mul = match tier { "thorough" => 150, "search" => 10, _ => 14 };
     let exhaustive = tier == "thorough";
     let mut seen = std::collections::HashSet::new();
     let int_sts = [UINT8, INT16, UINT32, INT32, UINT64, INT64, UINT128];
